@@ -100,13 +100,16 @@ type Conn struct {
 	// switched to TLS (-1 = never): bytes before it are cleartext, chunks after it must be TLS records.
 	ClientBytes []byte
 	TLSStartAt  int
+	// DeadlineFailAfter >= 0: the transport does not (or no longer) support deadlines — after that many successful
+	// Set*Deadline calls every further one returns an error (like a net.Conn over a channel without deadline support)
+	DeadlineFailAfter int
 	// PostTLSPlain collects chunks written after the switch to TLS that do not start like a TLS record.
 	PostTLSPlain [][]byte
 }
 
 // NewConn returns a connection on which the server has already queued its greeting.
 func NewConn(s *Session) *Conn {
-	c := &Conn{S: s, WriteFailAt: -1, WriteStallAt: -1, TLSStartAt: -1}
+	c := &Conn{S: s, WriteFailAt: -1, WriteStallAt: -1, TLSStartAt: -1, DeadlineFailAfter: -1}
 	return c
 }
 
@@ -307,9 +310,12 @@ func (c *Conn) ClientClosed() bool { c.mu.Lock(); defer c.mu.Unlock(); return c.
 func (c *Conn) LocalAddr() net.Addr  { return addr("192.0.2.10:40000") }
 func (c *Conn) RemoteAddr() net.Addr { return addr("192.0.2.1:25") }
 
-func (c *Conn) setdl(kind string, t time.Time) {
+func (c *Conn) setdl(kind string, t time.Time) error {
 	c.mu.Lock()
 	defer c.mu.Unlock()
+	if c.DeadlineFailAfter >= 0 && len(c.Deadlines) >= c.DeadlineFailAfter {
+		return errors.New("fakeconn: deadlines are not supported by this transport")
+	}
 	c.Deadlines = append(c.Deadlines, DeadlineRec{At: time.Now(), Value: t, Kind: kind})
 	vt := t
 	if !t.IsZero() {
@@ -321,10 +327,11 @@ func (c *Conn) setdl(kind string, t time.Time) {
 	if kind != "r" {
 		c.wdl, c.wExp = vt, false
 	}
+	return nil
 }
-func (c *Conn) SetDeadline(t time.Time) error      { c.setdl("rw", t); return nil }
-func (c *Conn) SetReadDeadline(t time.Time) error  { c.setdl("r", t); return nil }
-func (c *Conn) SetWriteDeadline(t time.Time) error { c.setdl("w", t); return nil }
+func (c *Conn) SetDeadline(t time.Time) error      { return c.setdl("rw", t) }
+func (c *Conn) SetReadDeadline(t time.Time) error  { return c.setdl("r", t) }
+func (c *Conn) SetWriteDeadline(t time.Time) error { return c.setdl("w", t) }
 
 // tlsSide runs a real crypto/tls server in lock-step with the client: exchange() hands it the client's
 // bytes and returns once the server is blocked waiting for more input, with everything it wrote meanwhile.
